@@ -916,6 +916,21 @@ Lemma assert_static_refuted :
   /\ g_assert U_static (Some (1, false)) (TStruct 1) A2 = ATrue /\ g_implements U_static 1 false 0 = true.
 Proof. vm_compute. repeat split. Qed.
 
+(** type T0 struct{}; func (T0) M();  type T2 struct{}; func (T2) M(int);  type T3 struct{ T2 };
+    type T5 struct{ T3; T0 }: T5 has M() at depth 1 and implements interface{ M() }; the static check
+    finds T2.M(int) first (depth 2 through T3) and rejects i.(T5) and i.( *T5) *)
+Definition U_static_sig : universe :=
+  mkU [ mkS [plainF "S0"] [mkM (s "M") false 0 1]; mkS [plainF "S2"] [mkM (s "M") false 1 2];
+        mkS [embF "T2" 1] []; mkS [embF "T3" 2; embF "T0" 0] [] ] [ mkI [(s "M", 0%N)] [] ].
+
+Lemma assert_static_sig_refuted :
+  y_assert U_static_sig SrcIface [(s "M", 0%N)] (Some (3, false)) (TStruct 3) A2 = AOther
+  /\ g_assert U_static_sig (Some (3, false)) (TStruct 3) A2 = ATrue
+  /\ y_assert U_static_sig SrcIface [(s "M", 0%N)] (Some (3, true)) (TPtr 3) A2 = AOther
+  /\ g_assert U_static_sig (Some (3, true)) (TPtr 3) A2 = ATrue
+  /\ g_implements U_static_sig 3 false 0 = true.
+Proof. vm_compute. repeat split. Qed.
+
 Lemma assert_side_inhabited :
   wf U_assert = true /\ sig_consistent (mkU (structs U_assert) (firstn 2 (ifaces U_assert))) = true
   /\ names_agree U_assert 1 true = true
